@@ -21,6 +21,12 @@ clang CFGs of initTaskingSystem / numTaskingThreads with all callees that have a
            GetNumTaskThreads returns m_NumThreads, and every thread-creation call of the scheduler sits in a counted
            loop that runs exactly m_NumThreads - 1 times.
 
+  R-C13-6  (added by the coordinator) the limit installed by initTaskingSystem is the only source of the team size: no
+           OpenMP directive of the parallel_for instantiations carries a num_threads clause, no limit API is called
+           outside tasking_system_init.cpp, no tbb::task_arena is created with an explicit concurrency.
+  R-C13-7  (added by the coordinator) initTaskingSystem never empties the installed handle before the new one has been
+           constructed (for TBB the handle owns the global_control, so emptying first opens a window without a limit).
+
 Not decided: that no more than n threads are ever inside parallel_for bodies at the same time (a runtime quantity
 of each backend's scheduler).
 """
